@@ -10,7 +10,9 @@ same operations directly in Python; model and direct oracle must agree (else mac
 code -> spec: seeded random expressions up to length 8 (deeper nesting of T arguments) are run
 and validated row by row by TLC (spec/Trace_C02.tla).
 """
+import json
 import random
+import zlib
 
 import glom
 from glom import PathAccessError, GlomError
@@ -118,6 +120,9 @@ def ops_text(ops):
         return '?'
 
 
+FALSY = {k: (codec._falsy(v) if k in ('dict', 'odict', 'list', 'tuple', 'obj', 'cobj') else v) for k, v in codec.PLAIN.items()}
+
+
 def worker(states):
     out = dict(n=0, cases=0, nontrivial=0, skipped=0, bad=[], samples=[], model_bad=[])
     cells = heap0_cells()
@@ -148,6 +153,17 @@ def worker(states):
                                    case=dict(target=st['target'], ops=ops, pred=pred, obs=obs, text=repr(spec))))
         elif len(out['samples']) < 1 and len(ops) == 3 and pred['ok']:
             out['samples'].append(dict(target=st['target'], text=repr(spec), ops=ops, pred=pred))
+        # on a deterministic quarter of the cases: the same replay on containers and objects that are falsy
+        # whatever they hold (a truth test in the evaluator is never a substitute for a None / emptiness test)
+        if not why and zlib.crc32(json.dumps(ops, sort_keys=True).encode()) % 4 == 0:
+            heap = codec.Heap(cells, FALSY, fns=tspec.FNS)
+            spec = tspec.build_t(ops, heap)
+            obs = observe(heap, st['target'], spec)
+            out['n'] += 1
+            why = compare(pred, obs)
+            if why:
+                out['bad'].append(dict(why='%s for %r [falsy containers]' % (why, spec),
+                                       case=dict(target=st['target'], ops=ops, pred=pred, obs=obs, text=repr(spec), falsy=True)))
     return out
 
 
